@@ -218,6 +218,18 @@ def check_refs(program, rep):
                 continue
             ps = f.params()
             body = _body(f)
+            # `if obj is None: return self` first: Python hands None to
+            # __get__ only for access through the owner CLASS (no instance is
+            # involved); an identity test cannot be fooled by the instance's
+            # dunders. A truthiness test (`if not obj`) would treat a falsy
+            # controller - an empty container - as "no instance".
+            if mname == '__get__' and len(body) >= 2 and isinstance(
+                    body[0], ast.If) and not body[0].orelse and len(
+                        body[0].body) == 1 and isinstance(
+                            body[0].body[0], ast.Return) \
+                    and norm(body[0].body[0].value) == ps[0] \
+                    and norm(body[0].test) == f'{ps[1]} is None':
+                body = body[1:]
             ok = False
             why = ('the descriptor method is not (apart from assertions) a '
                    'single call')
